@@ -69,6 +69,9 @@ func (l *Listener) parseDeposit(ctx context.Context, dl ethTypes.Log) (*Deposit,
 		return &Deposit{}, err
 	}
 
+	if len(dl.Topics) < 2 {
+		return &Deposit{}, fmt.Errorf("deposit event log has %d topics, expected at least 2", len(dl.Topics))
+	}
 	d.SenderAddress = common.BytesToAddress(dl.Topics[1].Bytes())
 	block, err := l.client.BlockByNumber(ctx, new(big.Int).SetUint64(dl.BlockNumber))
 	if err == nil {
